@@ -59,3 +59,45 @@ package sqlc
 //@ func (CachedConn).Exec$1
 //@   prop C06
 //@   ensures calls(exec, conn) == 1 && result0 == ret(exec, 0) && result1 == ret(exec, 1)
+
+// The context-free entry points are the context forms on the background context, with the caller's callbacks
+// wrapped one to one (same connection, same destination, same primary key).
+//@ func (CachedConn).DelCache
+//@   prop C06
+//@   opaque DelCacheCtx
+//@   ensures [same-keys] calls(cc.DelCacheCtx) == 1 && arg(cc.DelCacheCtx, 2) == keys && result == ret(DelCacheCtx)
+//@ func (CachedConn).GetCache
+//@   prop C06
+//@   opaque GetCacheCtx
+//@   ensures [same-key-and-destination] calls(cc.GetCacheCtx) == 1 && arg(cc.GetCacheCtx, 2) == key && arg(cc.GetCacheCtx, 3) == v && result == ret(GetCacheCtx)
+//@ func (CachedConn).SetCache
+//@   prop C06
+//@   opaque SetCacheCtx
+//@   ensures [same-key-and-value] calls(cc.SetCacheCtx) == 1 && arg(cc.SetCacheCtx, 2) == key && arg(cc.SetCacheCtx, 3) == val && result == ret(SetCacheCtx)
+//@ func (CachedConn).QueryRow
+//@   prop C06
+//@   opaque QueryRowCtx
+//@   ensures [same-destination-and-key] calls(cc.QueryRowCtx) == 1 && arg(cc.QueryRowCtx, 2) == v && arg(cc.QueryRowCtx, 3) == key && result == ret(QueryRowCtx)
+//@ func (CachedConn).QueryRow$1
+//@   prop C06
+//@   ensures [callers-query-on-that-connection] calls(query, conn, v) == 1 && result == ret(query)
+//@ func (CachedConn).QueryRowIndex
+//@   prop C06
+//@   opaque QueryRowIndexCtx
+//@   ensures [same-destination-key-and-keyer] calls(cc.QueryRowIndexCtx) == 1 && arg(cc.QueryRowIndexCtx, 2) == v && arg(cc.QueryRowIndexCtx, 3) == key && arg(cc.QueryRowIndexCtx, 4) == keyer && result == ret(QueryRowIndexCtx)
+//@ func (CachedConn).QueryRowIndex$1
+//@   prop C06
+//@   ensures [callers-index-query] calls(indexQuery, conn, v) == 1 && result0 == ret(indexQuery, 0) && result1 == ret(indexQuery, 1)
+//@ func (CachedConn).QueryRowIndex$2
+//@   prop C06
+//@   ensures [callers-primary-query-with-that-primary-key] calls(primaryQuery, conn, v, primary) == 1 && result == ret(primaryQuery)
+//@ func (CachedConn).Transact
+//@   prop C06
+//@   opaque TransactCtx
+//@   ensures [same-body] calls(cc.TransactCtx) == 1 && result == ret(TransactCtx)
+//@ func (CachedConn).Transact$1
+//@   prop C06
+//@   ensures [callers-body-on-that-session] calls(fn, session) == 1 && result == ret(fn)
+//@ func (CachedConn).TransactCtx
+//@   prop C06
+//@   ensures [on-the-underlying-connection] calls(cc.db.TransactCtx, ctx, fn) == 1 && result == ret(TransactCtx)
